@@ -10,6 +10,7 @@ import (
 	"io/fs"
 	"io/ioutil"
 	"os"
+	"path"
 	"path/filepath"
 	"strconv"
 	"sync"
@@ -273,7 +274,13 @@ func handlePacket(s *Server, p orderedRequest) error {
 		err := os.Rename(s.toLocalPath(p.Oldpath), s.toLocalPath(p.Newpath))
 		rpkt = statusFromError(p.ID, err)
 	case *sshFxpSymlinkPacket:
-		err := os.Symlink(s.toLocalPath(p.Targetpath), s.toLocalPath(p.Linkpath))
+		// A relative target is relative to the directory of the link, not to the
+		// working directory of the server: it is stored as given.
+		target := p.Targetpath
+		if path.IsAbs(filepath.ToSlash(target)) {
+			target = s.toLocalPath(target)
+		}
+		err := os.Symlink(target, s.toLocalPath(p.Linkpath))
 		rpkt = statusFromError(p.ID, err)
 	case *sshFxpClosePacket:
 		rpkt = statusFromError(p.ID, s.closeHandle(p.Handle))
